@@ -1707,3 +1707,117 @@ Proof.
 Qed.
 
 End ViewCommit.
+
+(* ================================================================== *)
+(* 7.9 the star: everybody commits                                     *)
+(* ================================================================== *)
+
+Lemma star_rounds_split k : forall j L Fs,
+  star_rounds (k + j) L Fs = (x <- star_rounds k L Fs ;; star_rounds j (fst x) (snd x)).
+Proof.
+  induction k as [|k IH]; intros j L Fs; cbn [star_rounds Nat.add]; [reflexivity|].
+  destruct (star_round L Fs) as [[L1 Fs1]|s]; cbn [bind fst snd]; [apply IH|reflexivity].
+Qed.
+
+Lemma Forall2_compose {A B C} (P : A -> B -> Prop) (Q : B -> C -> Prop) (R : A -> C -> Prop) :
+  (forall x y z, P x y -> Q y z -> R x z) ->
+  forall xs ys zs, Forall2 P xs ys -> Forall2 Q ys zs -> Forall2 R xs zs.
+Proof.
+  intros H xs ys zs H1. revert zs. induction H1 as [|x y xs ys Hp _ IH]; intros zs H2.
+  - inversion H2. constructor.
+  - inversion H2 as [|? z ? zs' Hq Hr]; subst. constructor; [eapply H; eassumption|apply IH; exact Hr].
+Qed.
+
+Section StarFinal.
+
+Variables (LL : LL) (T l : N) (rw rwl : bool) (l0 : raft_log) (lof : N -> N).
+Hypothesis HLL : LeaderLog LL.
+Hypothesis HT : T <> 0.
+Hypothesis Hl0 : RepInv rwl l0.
+Hypothesis Habs0 : abs l0 = LL.
+Hypothesis HlastT : ll_term LL (ll_last LL) = SOk T.
+
+Local Notation StarInv := (StarInv LL T l rw l0 lof).
+
+(* a follower that has everything *)
+Definition fol_done (L' : raft) (F F' : raft) : Prop :=
+  r_id F' = r_id F /\
+  (exists pr', get_pr L' (r_id F) = Some pr' /\ matched pr' = ll_last LL) /\
+  Agree LL (abs (r_log F')) (lof (r_id F)) (ll_last LL).
+
+(* from a converged star whose leader has committed its log: heartbeat_timeout + 1 rounds
+   later every follower has committed it too *)
+Lemma star_followers_commit Hb L Fs K L' Fs' :
+  StarInv Hb L Fs -> 1 <= Hb ->
+  (forall F, In F Fs -> exists pr, get_pr L (r_id F) = Some pr /\ matched pr = ll_last LL) ->
+  ll_last LL <= committed (r_log L) ->
+  (N.to_nat (Hb + 1) <= K)%nat ->
+  star_rounds K L Fs = Ok (L', Fs') ->
+  Forall2 (fun F F' => fol_done L' F F' /\ committed (r_log F') = ll_last LL) Fs Fs'.
+Proof.
+  intros HS HH Hdone Hc HK H.
+  destruct (star_rounds_view LL T l rw rwl l0 lof HLL HT Hl0 Habs0 K Hb L Fs L' Fs' HS H) as [HS' HV].
+  destruct HS as [_ Hall]. rewrite Forall_forall in Hall.
+  eapply Forall2_impl_in; [|exact HV]. clear HV. intros F F' HF (Eid & Hv).
+  destruct (Hall F HF) as (Hlg & Hlo & HloT & a & HI).
+  destruct (Hdone F HF) as (pr & Hg & Hm).
+  set (d := N.to_nat (Hb - 1 - r_heartbeat_elapsed L)).
+  assert (HdK : (d + 2 <= K)%nat) by (subst d; lia).
+  replace K with ((d + 2) + (K - (d + 2)))%nat in Hv by lia.
+  destruct (vrounds_split T (r_id F) _ _ _ _ _ _ Hv) as (L1 & F1 & Hd & Hrest).
+  pose proof (v_commit_within LL T l (r_id F) (lof (r_id F)) rw HLL Hlo HloT HT Hlg rwl l0 Hl0 Habs0
+                d Hb a L F pr L1 F1 HI Hg Hm Hc ltac:(subst d; lia) Hd) as Hc1.
+  destruct (v_converged_stays LL T l (r_id F) (lof (r_id F)) rw HLL Hlo HloT HT Hlg rwl l0 Hl0 Habs0
+              _ Hb a L F pr L1 F1 HI Hg Hm Hd) as (a1 & pr1 & HI1 & Hg1 & Hm1).
+  destruct (v_converged_stays LL T l (r_id F) (lof (r_id F)) rw HLL Hlo HloT HT Hlg rwl l0 Hl0 Habs0
+              _ Hb a1 L1 F1 pr1 L' F' HI1 Hg1 Hm1 Hrest) as (a' & pr' & HI' & Hg' & Hm').
+  destruct (v_commit_mono LL T l (r_id F) (lof (r_id F)) rw HLL Hlo HloT HT Hlg rwl l0 Hl0 Habs0
+              _ Hb a1 L1 F1 pr1 L' F' HI1 Hg1 Hrest) as [_ MF].
+  pose proof (pv_F _ _ _ _ _ _ _ _ _ _ _ HI') as HF'.
+  pose proof (fi_commit _ _ _ _ _ _ _ HF') as Hle.
+  pose proof (fi_agree _ _ _ _ _ _ _ HF') as Hag. pose proof (ag_lastL _ _ _ _ Hag) as Ha'.
+  destruct (PairInv_matched_le _ _ _ _ _ _ _ _ _ _ _ _ HI' Hg') as [HP' _]. pose proof (pi_b _ _ _ _ HP').
+  split; [|lia]. split; [exact Eid|]. split; [exists pr'; auto|].
+  replace (ll_last LL) with a' by lia. exact Hag.
+Qed.
+
+(* MAIN 7c (star_commit): the whole run.  After the convergence bound plus
+   heartbeat_timeout + 1 rounds: the leader and every follower have committed the leader's
+   whole log, every follower's log agrees with it, every matched is last_index. *)
+Theorem star_commit Hb L Fs N0 K L' Fs' pl :
+  StarInv Hb L Fs -> Fs <> [] -> 1 <= Hb ->
+  (forall F, In F Fs -> (star_bound Hb (ll_last LL) (lof (r_id F)) <= N0)%nat) ->
+  incoming (conf_of L) <> [] ->
+  (forall v, In v (incoming (conf_of L)) \/ In v (outgoing (conf_of L)) ->
+             v = l \/ In v (map r_id Fs)) ->
+  get_pr L l = Some pl -> matched pl = ll_last LL ->
+  CommitInv (ll_last LL) L ->
+  (N.to_nat (Hb + 1) <= K)%nat ->
+  star_rounds (N0 + K) L Fs = Ok (L', Fs') ->
+  committed (r_log L') = ll_last LL /\
+  Forall2 (fun F F' => fol_done L' F F' /\ committed (r_log F') = ll_last LL) Fs Fs'.
+Proof.
+  intros HS Hne HH HN Hinc Hvot Hgl Hml HCI HK H.
+  rewrite star_rounds_split in H. inv_bind H. destruct x as [L1 Fs1]. cbn [fst snd] in H.
+  destruct (star_converges LL T l rw rwl l0 lof HLL HT Hl0 Habs0 Hb L Fs N0 L1 Fs1 HS HH HN Hx) as [HS1 HF1].
+  pose proof (star_leader_commits LL T l rw rwl l0 lof HLL HT Hl0 Habs0 HlastT Hb L Fs N0 L1 Fs1 pl
+                HS Hne HH HN Hinc Hvot Hgl Hml HCI Hx) as Hc1.
+  destruct (star_rounds_CommitInv LL T l rw rwl l0 lof HLL HT Hl0 Habs0 HlastT N0 Hb L Fs L1 Fs1
+              HS Hne Hinc HCI Hx) as (Cf1 & CI1 & _ & _).
+  assert (Hne1 : Fs1 <> []).
+  { intros E. subst Fs1. inversion HF1. subst Fs. congruence. }
+  assert (Hids : map r_id Fs1 = map r_id Fs) by (eapply Forall2_ids; exact HF1).
+  assert (Hdone1 : forall F1, In F1 Fs1 ->
+            exists pr, get_pr L1 (r_id F1) = Some pr /\ matched pr = ll_last LL).
+  { clear - HF1. induction HF1 as [|x y xs ys (E & pr' & Hg & Hm & _) _ IH]; intros F1 HIn; [destruct HIn|].
+    destruct HIn as [<-|HIn]; [rewrite E; eauto|apply IH; exact HIn]. }
+  pose proof (star_followers_commit Hb L1 Fs1 K L' Fs' HS1 HH Hdone1 ltac:(lia) HK H) as HF2.
+  destruct (star_rounds_CommitInv LL T l rw rwl l0 lof HLL HT Hl0 Habs0 HlastT K Hb L1 Fs1 L' Fs'
+              HS1 Hne1 ltac:(rewrite Cf1; exact Hinc) CI1 H) as (_ & [CL _] & ML & _).
+  split; [lia|].
+  eapply Forall2_compose; [|exact HF1|exact HF2].
+  intros F F1 F' (E1 & pr1 & _ & _ & A1) (D2 & C2). destruct D2 as (E2 & (pr' & Hg' & Hm') & A2). cbn beta.
+  split; [|exact C2]. split; [congruence|]. rewrite E1 in Hg', A2. split; [eauto|exact A2].
+Qed.
+
+End StarFinal.
